@@ -4,6 +4,7 @@ import struct
 from datetime import timedelta
 
 from .. import assert_repo
+from ..links import ANY_LINK
 
 ID = 'C14'
 LEVEL = 'exploration'
@@ -263,7 +264,7 @@ def gen_requester(rng):
     if rng.random() < 0.25:
         own = [[rng.choice([0.0, 0.0, 0.3]), rng.choice([1, 5, 100]), rng.choice([1000, 60000])]
                for _ in range(rng.choice([1, 2]))]
-    return {'link': rng.choice(['bytes', 'messages']), 'frag': rng.choice([None, None, 64, 100]),
+    return {'link': rng.choice(ANY_LINK), 'frag': rng.choice([None, None, 64, 100]),
             'queue_size': rng.choice([0, 0, 1, 3]), 'timeline': timeline, 'tail': 2.0, 'own_publisher': own}
 
 
@@ -346,7 +347,7 @@ def run_case(gen, idx, rng, tier):
     leases = [(rng.choice([0.0, 0.0, 0.1, 1.0]), rng.choice(COUNTS + [7, 100]),
                rng.choice([1, 500, 999, 1000, 1001, 1500, 2750, 4007, 10000, 120250, MAXN, rng.randrange(1, 10 ** 7),
                            rng.randrange(1, 10 ** 4)])) for _ in range(n)]
-    desc = {'publisher': kind, 'leases': leases, 'link': rng.choice(['bytes', 'messages'])}
+    desc = {'publisher': kind, 'leases': leases, 'link': rng.choice(ANY_LINK)}
     got, errs = vloop.run(_responder(rng, desc))
     want = [(c, ttl) for _, c, ttl in leases]
     wit = []
